@@ -775,11 +775,15 @@ impl BuiltInFunction {
                     ));
                 }
 
-                let (lhs, rhs) = s.split_at(
-                    (*mid)
-                        .try_into()
-                        .with_context(|| format!("`{mid}` is an invalid index (usize)"))?,
-                );
+                let mid: usize = (*mid)
+                    .try_into()
+                    .with_context(|| format!("`{mid}` is an invalid index (usize)"))?;
+
+                if !s.is_char_boundary(mid) {
+                    bail!("split index `{mid}` splits a character")
+                }
+
+                let (lhs, rhs) = s.split_at(mid);
 
                 Ok((
                     Some(vector![
